@@ -18,7 +18,7 @@ ROOT = os.path.dirname(os.path.dirname(os.path.abspath(__file__)))
 
 
 def sh(cmd, **kw):
-    return subprocess.run(cmd, shell=True, stdout=subprocess.PIPE, stderr=subprocess.STDOUT, text=True, **kw)
+    return subprocess.run(cmd, shell=True, stdout=subprocess.PIPE, stderr=subprocess.STDOUT, text=True, errors="replace", **kw)
 
 
 def main():
@@ -60,7 +60,7 @@ def main():
                 res[tag] = "compile failed: " + c.stdout[-300:]
                 continue
             try:
-                rr = subprocess.run([exe], stdout=subprocess.PIPE, stderr=subprocess.STDOUT, text=True, timeout=120)
+                rr = subprocess.run([exe], stdout=subprocess.PIPE, stderr=subprocess.STDOUT, text=True, errors="replace", timeout=120)
                 res[tag] = {"exit": rr.returncode, "tail": rr.stdout[-300:]}
             except subprocess.TimeoutExpired:
                 res[tag] = {"exit": "timeout"}
@@ -69,7 +69,7 @@ def main():
         meta["demo_passes_both"] = all(isinstance(res.get(t), dict) and res[t].get("exit") == 0 for t in ("original", "changed"))
     t0 = time.time()
     env = dict(os.environ, VERIF_REPO=wt)
-    r = subprocess.run([os.path.join(ROOT, "check"), pid, "--tier", tier], stdout=subprocess.PIPE, stderr=subprocess.STDOUT, text=True, env=env, cwd=ROOT)
+    r = subprocess.run([os.path.join(ROOT, "check"), pid, "--tier", tier], stdout=subprocess.PIPE, stderr=subprocess.STDOUT, text=True, errors="replace", env=env, cwd=ROOT)
     lines = r.stdout.splitlines()
     viol = [l for l in lines if l.startswith("VIOLATION")]
     sigs = [re.sub(r" witnesses=.*", "", l.strip())[4:] for l in lines if l.strip().startswith("sig=")]
